@@ -770,6 +770,10 @@ func (s *State) applyFunction(name string, fn object.Object, args []object.Objec
 		log.Debugf("Cache miss for %s %v, not caching error result", function.CacheKey, args)
 		return res
 	}
+	// A function value carries the environment of this very call (its captured variables): every call makes its own.
+	if res.Type() == object.FUNC {
+		return res
+	}
 	s.cache.Set(function.CacheKey, args, res, output)
 	log.Debugf("Cache miss for %s %v", function.CacheKey, args)
 	return res
